@@ -811,7 +811,21 @@ impl<'a> G<'a> {
                             return r;
                         }
                     }
-                    let m = match g.rng.below(8) {
+                    let m = match g.rng.below(10) {
+                        8 => {
+                            // a PUSH whose body pops first and may then fail: nothing but the wrapper the
+                            // optimizer puts around it brings the popped entry back
+                            let pop = Expr::Ident((*g.rng.pick(&["POP", "POP", "POP_ALL", "DROP"])).into());
+                            let inner = if g.rng.chance(1, 2) { pop } else { Expr::Seq(Box::new(pop), Box::new(g.terminal_consuming())) };
+                            g.mk_push(inner)
+                        }
+                        9 => {
+                            let r = match g.stack_rule.clone() {
+                                Some((name, _)) => Expr::Ident(name),
+                                None => Expr::Ident("POP".into()),
+                            };
+                            g.mk_push(r)
+                        }
                         6 => {
                             // a branching operator over a bare POP *inside* a PUSH
                             let t = g.terminal_consuming();
@@ -846,6 +860,10 @@ impl<'a> G<'a> {
                         _ => Expr::Seq(Box::new(Expr::Ident("POP".into())), Box::new(Expr::Ident("POP".into()))),
                     };
                     // then something that may fail afterwards, so the mutation must be undone
+                    if g.rng.chance(1, 4) {
+                        // directly under the branching operator, no sequence in between
+                        return m;
+                    }
                     let tail = g.terminal_consuming();
                     if g.rng.chance(2, 3) {
                         Expr::Seq(Box::new(m), Box::new(tail))
